@@ -17,7 +17,8 @@ RULE = ("each case builds one real System and calls the real assemble() with con
         "distinct = scenario + parameters; non-trivial = nonzero forces")
 ASSUMPTIONS = ["residual tolerance 1e-9*scale for smooth systems and 20*fixed_point_atol*scale for systems with closed contacts (the fixed-point loop stops on increments of the accelerations)",
                "Coulomb direction tests use isotropic friction; sliding = |gamma_F| > 1e-3",
-               "rejection = any exception raised by assemble()"]
+               "rejection = any exception raised by assemble()",
+               "an assemble() that raises because its fixed-point iteration for the contact forces did not converge returns nothing to judge: counted as undecided (the property speaks about returned values), never as held"]
 REQUIRED_MONITORS = ["EOM", "g_ddot", "signorini", "coulomb", "reject"]
 META = {
     "level_text": "Exploration: post-conditions on the real System.assemble(): the returned initial accelerations and forces are substituted into the equations of motion, the acceleration-level constraints and the Signorini/Coulomb conditions recomputed from the real System methods; deliberately inconsistent initial states must be rejected. Held on the systems generated.",
@@ -266,7 +267,7 @@ def _build_contact(rng, ctx, det, bad=None):
     return system
 
 
-def _build_multi(rng, ctx, det):
+def _build_multi(rng, ctx, det, integer=False):
     """2-3 independent balls on one plane; each contact has its own friction coefficient (0 or > 0), mass and scenario
     (rest / slide), and the contacts are added in a seeded order - the bookkeeping between active normal contacts and their
     friction laws must not mix them up"""
@@ -276,11 +277,11 @@ def _build_multi(rng, ctx, det):
     from cardillo.forces import Force
     from vlib.oracles import rodrigues
     system = System()
-    tilt = float(rng.uniform(0, 0.3)) if rng.random() < 0.5 else 0.0
+    tilt = float(rng.uniform(0, 0.3)) if rng.random() < 0.5 and not integer else 0.0
     ax = random_unit(rng); ax[2] = 0; ax = ax / (np.linalg.norm(ax) + 1e-300)
-    A = rodrigues(ax * tilt) @ rodrigues(np.array([0, 0, 1.0]) * rng.uniform(0, 6))
+    A = rodrigues(ax * tilt) @ rodrigues(np.array([0, 0, 1.0]) * rng.uniform(0, 6)) if not integer else np.eye(3)
     n, t1, t2 = A[:, 2], A[:, 0], A[:, 1]
-    r0 = rng.normal(size=3)
+    r0 = rng.normal(size=3) if not integer else np.zeros(3)
     plane = Frame(r_OP=r0, A_IB=A, name="plane")
     system.add(plane)
     nb = int(rng.integers(2, 4))
@@ -294,7 +295,11 @@ def _build_multi(rng, ctx, det):
         pos = r0 + (3.0 * i + rng.normal() * 0.2) * t1 + rng.normal() * t2 + R * n
         scen = ["rest", "slide"][int(rng.integers(2))]
         vt = (rng.normal() * t1 + rng.normal() * t2) * 2 if scen == "slide" else np.zeros(3)
-        if rng.random() < 0.5:
+        if integer:
+            # every coordinate of the system is a whole number handed over as Python ints (System.q0 then has an integer dtype)
+            R = int(rng.integers(1, 3))
+            ball = PointMass(m, q0=[int(4 * i + rng.integers(0, 2)), int(rng.integers(-3, 4)), R], u0=vt, name=f"ball{i}")
+        elif rng.random() < 0.5:
             P = rng.normal(size=4); P /= np.linalg.norm(P)
             ball = RigidBody(m, 0.4 * m * R * R * np.eye(3), q0=np.concatenate([pos, P]), u0=np.concatenate([vt, np.zeros(3)]), name=f"ball{i}")
         else:
@@ -326,7 +331,9 @@ def run_case(spec, ctx):
             elif kind == "contact":
                 system = _build_contact(rng, ctx, det)
             elif kind == "multi":
-                system = _build_multi(rng, ctx, det)
+                system = _build_multi(rng, ctx, det, integer=(spec["variant"] % 3 == 2))
+                if spec["variant"] % 3 == 2:
+                    ctx.cls("multi:integer_coordinates")
             elif sub == "velocity":
                 system = _build_rev(rng, ctx, det, "none", inconsistent=True)
             else:
@@ -347,6 +354,16 @@ def run_case(spec, ctx):
                 ctx.violation("consistent_initial_conditions/reject", "inconsistent initial state accepted", {**det, "g_dot0": system.g_dot(system.t0, system.q0, system.u0),
                               "g_N0": system.g_N(system.t0, system.q0), "g_N_dot0": system.g_N_dot(system.t0, system.q0, system.u0)})
             ctx.sig([det], nontrivial=True)
+            ctx.sample(det)
+            return
+        if err is not None and isinstance(err, AssertionError) and "does not converge after" in str(err):
+            # the fixed-point iteration for the contact forces gave up and said so: nothing was returned, so the property (which
+            # speaks about the returned accelerations and forces) has nothing to judge; counted, and too many of these make the
+            # whole check inconclusive (found by the thorough tier: 3 of 4500 scenes, sliding rigid body, mu ~ 0.5, tilted plane)
+            ctx.count("assemble_fixed_point_not_converged")
+            ctx.cls("assemble:fixed_point_not_converged(loud)")
+            ctx.undecided("consistent initial conditions: fixed-point iteration did not converge (AssertionError raised)")
+            ctx.sig([det], nontrivial=False)
             ctx.sample(det)
             return
         if err is not None:
